@@ -126,11 +126,18 @@ def build_obligation(inst):
             dat = OrderedDict((k, dat[k]) for k in pin)
             exp = denote(prog, e2, leaves)
             try:
-                if mode in ("compile", "code", "pickle", "kwargs"):
-                    with lazy:
+                if mode in ("compile", "code", "pickle", "kwargs", "compile_normalize", "code_normalize"):
+                    from funsor.interpretations import normalize
+                    with (normalize if mode.endswith("_normalize") else lazy):
                         expr = build(prog, leaves)
                     program = compile_funsor(expr)
-                    if mode == "compile":
+                    if mode == "compile_normalize":
+                        got = program(**dat)
+                    elif mode == "code_normalize":
+                        ns = {}
+                        exec(program.as_code("prog_fn"), ns)
+                        got = ns["prog_fn"](**dat)
+                    elif mode == "compile":
                         got = program(**dat)
                         # relational: the same as substituting the arrays into the expression
                         sub = expr(**{k: funsor.Tensor(v) if k != "k" else funsor.Number(int(v), pin["k"][1]) for k, v in dat.items()})
@@ -201,6 +208,25 @@ def instances(tier, seed):
             p = binary("add", outreduce(opn, m if opn != "logsumexp" else m, axis, kd), num(2.0))
             for mode in ("compile", "code", "pickle", "trace"):
                 out.append(("p", p, mode))
+    # flat n-ary contractions (built under normalize): every arity, commutative and mixed shapes
+    from lang.prog import type_of, unary
+    from lang.gen import well_typed
+    scal = [var(k, d) for k, d in VARS.items() if d[0] == "real" and not d[1]] or [var(k, d) for k, d in VARS.items() if d[0] == "real"][:1]
+    same = [v for v in [var(k, d) for k, d in VARS.items() if d[0] == "real"] if type_of(v)[1] == type_of(scal[0])[1]]
+    for opn in ("add", "mul", "max"):
+        for arity in range(2, 10 if tier == "quick" else 19):
+            terms = []
+            for i in range(arity):
+                base = same[i % len(same)]
+                terms.append(base if i < len(same) else unary(("exp", "tanh", "sigmoid", "abs")[i % 4], binary("mul", base, num(float(i)))))
+            e = terms[0]
+            for t in terms[1:]:
+                e = binary(opn, e, t)
+            if well_typed(e):
+                out.append(("p", e, "compile_normalize"))
+                out.append(("p", e, "code_normalize"))
+    for p in gen_programs(rng, n // 2, 3 if tier == "quick" else 4, False):
+        out.append(("p", p, "compile_normalize"))
     for p in gen_programs(rng, n, 3 if tier == "quick" else 4, False):      # number constants only: printable / picklable
         out.append(("p", p, "compile"))
         out.append(("p", p, "code"))
@@ -216,7 +242,7 @@ def main():
     chk.map("checks.c18", "worker", insts, chunksize=4)
     chk.extra_cov = dict(programs=len({o.get("prog") for o in chk.outcomes if o["status"] == "ok"}), disagreements_checked=sum(o.get("cells", 0) for o in chk.outcomes))
     chk.bounds = dict(inputs={k: str(v) for k, v in VARS.items()}, depth="<= 3 | 4 (+ up to 2 extra steps)", constants="numbers and (for compile/trace) tensor constants",
-                      routes=["compile_funsor(e)(**data)", "exec(program.as_code())", "pickle round trip", "trace_function(f, data)", "missing / unexpected kwargs rejected"])
+                      routes=["compile_funsor(e)(**data) for e built under lazy and under normalize (flat Contractions of arity 2-9|18)", "exec(program.as_code())", "pickle round trip", "trace_function(f, data)", "missing / unexpected kwargs rejected"])
     chk.assumptions = ["as_code and pickle are exercised on programs whose constants are numbers (tensor constants print as a numpy repr and the symbolic cells are not picklable)",
                        "integer inputs are enumerated (Bint[2]), array inputs and tensor constants are symbolic"]
     chk.floor = 100
